@@ -18,7 +18,7 @@ git -C "$WT" apply "$SRC/patch.diff" || { echo "patch does not apply to HEAD"; e
 b=$(run_demo patched)
 n="skipped"
 if [ "$2" != "--no-suite" ]; then
-  n=$(/venv/bin/python "$(dirname "$0")/baseline.py" "$WT" | grep -o "stable_not_passing=[0-9]*" | cut -d= -f2)
+  bl=$(/venv/bin/python "$(dirname "$0")/baseline.py" "$WT"); n=$(echo "$bl" | grep -o "stable_not_passing=[0-9]*" | cut -d= -f2); echo "$bl" | grep "NOT PASSING"
 fi
 echo "demo_clean=$a demo_patched=$b stable_not_passing=$n"
 tail -3 "$WT/_demo.patched.log" | cut -c1-200
